@@ -8,11 +8,14 @@ import (
 	"io"
 	"os"
 	"os/exec"
+	"path/filepath"
 	"strings"
 	"time"
 
 	"github.com/protobom/protobom/pkg/formats"
+	"github.com/protobom/protobom/pkg/reader"
 	"github.com/protobom/protobom/pkg/sbom"
+	"google.golang.org/protobuf/proto"
 
 	"mcverif/engine"
 	"mcverif/gen"
@@ -176,6 +179,7 @@ func Run(c *engine.Ctx) {
 	positive(c)
 	sizeClasses(c)
 	historyPairs(c)
+	fileHistories(c)
 	declarationCube(c)
 	headers(c)
 	tokens(c)
@@ -406,6 +410,103 @@ func historyPairs(c *engine.Ctx) {
 		}
 	}
 	rec(nil)
+}
+
+// fileHistories: detection through the file entry point (Sniffer.SniffFile, reader.ParseFile) on ONE path whose content
+// changes between the calls, with the file's timestamps pinned to one instant (as after an archive extraction, a copy
+// that preserves times, or two writes within one clock tick: the modification time is an environment answer, owned
+// here) - rewritten in place or replaced by rename. Among the inputs are writer outputs of equal length in different
+// formats. Oracle: the file entry point reports what the stream entry point reports for the bytes now in the file.
+func fileHistories(c *engine.Ctx) {
+	c.Group("file-history")
+	c13, _ := rw.Write(histDoc(), formats.CDX13JSON, 0)
+	ins := append([]string{string(c13)}, historyInputs()...)
+	sameLen := 0
+	for i := range ins {
+		for j := range ins {
+			if i < j && len(ins[i]) == len(ins[j]) && ins[i] != ins[j] {
+				sameLen++
+			}
+		}
+	}
+	c.Bound("file-history", fmt.Sprintf("all sequences of 2 (write content to the one path, detect) over %d inputs (%d pairs of different inputs of equal length) x {rewritten in place, replaced by rename} x {timestamps pinned to one instant, left to the clock}; SniffFile and ParseFile against SniffReader on the bytes now in the file", len(ins), sameLen))
+	pinned := time.Unix(1_700_000_000, 0)
+	for i := range ins {
+		for j := range ins {
+			for mode := 0; mode < 4; mode++ {
+				i, j, rename, pin := i, j, mode&1 != 0, mode&2 != 0
+				c.Case(func() any {
+					return map[string]any{"first": clip60(ins[i]), "second": clip60(ins[j]), "replaced-by-rename": rename, "timestamps-pinned": pin}
+				}, func(t *engine.T) *engine.Violation {
+					dir, err := os.MkdirTemp(os.Getenv("MCVERIF_SCRATCH"), "c06f-")
+					if err != nil {
+						return engine.Violate("harness", "", "%v", err)
+					}
+					defer os.RemoveAll(dir)
+					path := filepath.Join(dir, "sbom.json")
+					put := func(content string) error {
+						target := path
+						if rename {
+							target = path + ".new"
+						}
+						if err := os.WriteFile(target, []byte(content), 0o644); err != nil {
+							return err
+						}
+						if pin {
+							if err := os.Chtimes(target, pinned, pinned); err != nil {
+								return err
+							}
+						}
+						if rename {
+							return os.Rename(target, path)
+						}
+						return nil
+					}
+					for step, k := range []int{i, j} {
+						if err := put(ins[k]); err != nil {
+							return engine.Violate("harness", "", "%v", err)
+						}
+						want := sniffKey(ins[k])
+						f, err := (&formats.Sniffer{}).SniffFile(path)
+						got := fmt.Sprintf("%s|%v", f, err != nil)
+						t.Transitions(2)
+						t.Validated(1)
+						if got != want {
+							return engine.Violate("file-detection", "", "step %d: SniffFile on a file holding %q reports %q, SniffReader on the same bytes reports %q (the path held %q before)", step, clip60(ins[k]), got, want, clip60(ins[i]))
+						}
+						// the parse that follows sees the whole current document
+						d1, e1 := reader.New().ParseFile(path)
+						d2, e2 := reader.New().ParseStream(strings.NewReader(ins[k]))
+						if (e1 == nil) != (e2 == nil) || (e1 == nil && !proto.Equal(normDoc(d1), normDoc(d2))) {
+							return engine.Violate("file-detection", "parse", "step %d: ParseFile on a file holding %q differs from ParseStream on the same bytes (errors: %v / %v)", step, clip60(ins[k]), e1, e2)
+						}
+					}
+					t.State(fmt.Sprint("fh", i, j, mode))
+					t.Outcome("file-history-ok")
+					return nil
+				})
+			}
+		}
+	}
+}
+
+func clip60(x string) string {
+	if len(x) > 60 {
+		return x[:60] + "…"
+	}
+	return x
+}
+
+// normDoc clears what differs between two parses of the same bytes by design (generated document identifiers, dates).
+func normDoc(d *sbom.Document) *sbom.Document {
+	if d == nil {
+		return nil
+	}
+	c := proto.Clone(d).(*sbom.Document)
+	if c.Metadata != nil {
+		c.Metadata.Date = nil
+	}
+	return c
 }
 
 type lay struct{ name, text string }
